@@ -1,10 +1,16 @@
 """C16 - reading arbitrary text terminates and fails only in documented ways."""
-from .. import filecases, impl
+from .. import filecases, impl, sortcases as SC
 from ..common import exc_name, float_table, has_unmodelled
 from ..runner import Outcome
+from . import c09
+from .c08 import expected_cmp
 
 LEVEL = "proof"
-ASSUMPTIONS = ["lines are Python str without lone surrogates (not representable in the model, nor in UTF-8 files)"]
+ASSUMPTIONS = ["lines are Python str without lone surrogates (not representable in the model, nor in UTF-8 files)",
+               "the lines of a file on disk are its physical lines: ended by LF, CRLF or a lone CR (text mode, universal newlines), nothing else",
+               "whether the data contradicts the declared order is judged only when the header declares the order (and at most one contig list) exactly once "
+               "and the records involved carry a chromosome name, integer positions and text barcodes; other ordering errors are accepted as before"]
+PENDING_DEFECTS = []
 MODES = ["Strict", "Lenient", "Silent"]
 ANNS = [None, None, "gdc-1.0.0", "gdc-1.0.0-public", "gdc-2.0.0-aliquot-merged-masked", "gdc-1.0.0-genie"]
 SORTABLE = ("Coordinate", "BarcodesAndCoordinate")
@@ -34,7 +40,7 @@ def body_count(lines):
     return len(stripped) - k - 1
 
 
-def declared_sortable(lines):
+def declared_sortable(lines):       # (kept for older callers; declared() is what the oracle uses)
     for l in lines:
         s = l.rstrip("\r\n")
         if not s.startswith("#"):
@@ -45,23 +51,178 @@ def declared_sortable(lines):
     return False
 
 
-def request(lines, mode):
-    """The reader.run request (implementation and model) for one file in one mode."""
+def request(lines, mode, via=None, consume=None, text=None, given=None, given_norestrict=None):
+    """The reader.run request for one file in one mode.  It is what the model is asked (its "lines" are the lines the reader
+    is given); the implementation is run on the same request through factory `via` (filecases.READER_VIAS; None = the plain
+    MafReader(lines=<list>)) and consumed in style `consume` (filecases.CONSUME_STYLES; None = a for loop).  For the
+    path-based factories `text` is the text of the file and the lines are its physical lines."""
+    if via in ("path", "gz"):
+        lines = filecases.physical_lines(text)
     allf = [p for l in lines for p in l.rstrip("\r\n").split("\t")]
-    return {"op": "reader.run", "lines": lines, "mode": mode, "floats": float_table(allf)}
+    r = {"op": "reader.run", "lines": lines, "mode": mode, "floats": float_table(allf)}
+    if via is not None:
+        r["via"], r["consume"] = via, consume or "for"
+        if via in ("path", "gz"):
+            r["text"] = text
+    if given is not None:
+        r["given"] = given
+    if given_norestrict is not None:
+        r["given_norestrict"] = given_norestrict
+    return r
 
 
-def oracle(lines, mode, i):
+def how_of(r):
+    """The part of a request beyond lines and mode (stored in failures, enough to rebuild the request)."""
+    return {k: r[k] for k in ("via", "consume", "text", "given", "given_norestrict") if k in r}
+
+
+def declared(lines):
+    """What the header of the file declares about order, read off the text by the documented pragma syntax
+    ('#key value', value without trailing blanks): {"sortable": a sortable order is named on some sort.order line,
+    "order", "contigs": set when exactly one well-formed sort.order line (naming a sortable order) and at most one
+    (then well-formed) contigs line exist - otherwise the declaration is not clear-cut and "order" is None}."""
+    so, cg = [], []
+    for l in lines:
+        s = l.rstrip("\r\n")
+        if not s.startswith("#"):
+            break
+        parts = s[1:].split(" ", 1)
+        key = parts[0]
+        val = parts[1].rstrip() if len(parts) == 2 else None
+        if key == "sort.order":
+            so.append(val)
+        elif key == "contigs":
+            cg.append(val)
+    out = {"sortable": any(v in SORTABLE for v in so), "order": None, "contigs": None}
+    if len(so) == 1 and so[0] in SORTABLE and len(cg) <= 1 and all(cg):
+        out["order"], out["contigs"] = so[0], (cg[0].split(",") if cg else [])
+    return out
+
+
+def read_loc(rec):
+    """What a sort order reads from a record, through the accessors the library uses, each component on its own;
+    "missing" lists the coordinate components whose column the record does not hold."""
+    out = {"tumor": SC.kv(rec.value("Tumor_Sample_Barcode")), "normal": SC.kv(rec.value("Matched_Norm_Sample_Barcode")), "missing": []}
+    for name, attr in (("chr", "chromosome"), ("start", "start"), ("stop", "end")):
+        try:
+            out[name] = SC.kv(getattr(rec, attr))
+        except (KeyError, AttributeError, TypeError):
+            out[name] = None
+            out["missing"].append(name)
+    out["hasCoords"] = not out["missing"]
+    return out
+
+
+def body_locs(lines, i):
+    """What the order reads from each line after the column line (read_loc of the line parsed alone, in Silent mode,
+    under the scheme the reader reports); None when the reader reports no scheme."""
+    from maflib.record import MafRecord
+    from maflib.schemes import NoRestrictionsScheme
+    from maflib.validation import ValidationStringency as VS
+    if not i.get("scheme"):
+        return None
+    sch = impl.scheme_by_annotation(i["scheme"]["annotation"]) or NoRestrictionsScheme(column_names=i["scheme"]["names"])
+    stripped = [l.rstrip("\r\n") for l in lines]
+    k = 0
+    while k < len(stripped) and stripped[k].startswith("#"):
+        k += 1
+    locs = []
+    for l in stripped[k + 1:]:
+        try:
+            locs.append(read_loc(MafRecord.from_line(l, scheme=sch, validation_stringency=VS.Silent)))
+        except Exception:  # noqa
+            locs.append(None)
+    return locs
+
+
+def _position(v):
+    """"num": a position the documented order can read (missing, a number, or the plain decimal text of an integer);
+    "bad": a text that is no integer under any reading; None: anything else (not judged)."""
+    import re
+    if v is None or isinstance(v, int):
+        return "num"
+    if isinstance(v, str):
+        if re.match(r"^[+-]?[0-9]+$", v):
+            return "num"
+        try:
+            int(v)
+        except ValueError:
+            return "bad"
+    return None
+
+
+def key_class(loc, order, cs):
+    """How a line after the column line takes part in the declared order: "contig" (it names a chromosome - or none -
+    that the declared contig list does not hold: it contradicts the list whatever else it holds), "keyed" (chromosome name
+    or none, readable positions, text-or-missing barcodes: the documented order compares it), "malformed" (a coordinate
+    column is missing, or a position text is not an integer: it cannot be compared, so it can neither follow nor contradict
+    the order), None (something else: not judged)."""
+    if not loc:
+        return None
+    if "chr" not in loc["missing"]:
+        if not (loc["chr"] is None or isinstance(loc["chr"], (str, int))):
+            return None
+        if cs and str(loc["chr"]) not in cs:
+            return "contig"
+    ps = [_position(loc["start"]), _position(loc["stop"])]
+    if loc["missing"] or "bad" in ps:
+        return "malformed"
+    if None in ps:
+        return None
+    if order == "BarcodesAndCoordinate" and not all(loc[b] is None or isinstance(loc[b], str) for b in ("tumor", "normal")):
+        return None
+    return "keyed"
+
+
+def ordering_verdict(lines, i, decl=None):
+    """A ValueError was raised after len(i["records"]) records, i.e. on reading the next line: does that line contradict
+    the declared order or contig list?  "contig" / "descent" (it does: the documented ordering error), "spurious" (it does
+    not: it names a listed chromosome and is not smaller, in the documented order, than any comparable record before it),
+    "malformed" (the line has no readable coordinates, so it contradicts nothing: the failure is due to a malformed line),
+    or None (not judged: declaration not clear-cut, or a record involved is of neither kind)."""
+    decl = decl or declared(lines)
+    order, cs = decl["order"], decl["contigs"]
+    if order is None:
+        return None
+    locs = body_locs(lines, i)
+    d = len(i.get("records", []))
+    if locs is None or d >= len(locs):
+        return None
+    kd = key_class(locs[d], order, cs)
+    if kd != "keyed":
+        return kd
+    classes = [key_class(x, order, cs) for x in locs[:d]]
+    if None in classes or "contig" in classes:
+        return None                                # (an earlier contradiction that went unreported is C09's subject)
+    prev = [x for x, c in zip(locs[:d], classes) if c == "keyed"]
+    if any(expected_cmp(locs[d], x, order, cs) < 0 for x in prev):
+        return "descent"
+    return "spurious"
+
+
+def oracle(lines, mode, i, how=None):
     """The property on the implementation's answer `i` to reading `lines` in `mode`: the failure dicts (at most one)."""
-    where = {"lines": lines, "mode": mode}
+    where = dict({"lines": lines, "mode": mode}, **(how or {}))
     exc = i.get("init_exc") or i.get("iter_exc")
-    sortable = declared_sortable(lines)
+    decl = declared(lines)
     if exc:
-        ok = (mode == "Strict" and exc.startswith("MafFormatException:")) or (sortable and exc == "ValueError" and "iter_exc" in i and i.get("iter_exc"))
-        if not ok:
-            return [dict(where, what="reading failed with %s, which is neither the format exception in Strict mode nor the documented ordering error" % exc,
-                         kind="undocumented-exception", exception=exc, stage="init" if i.get("init_exc") else "iteration")]
-        return []
+        if mode == "Strict" and exc.startswith("MafFormatException:"):
+            return []
+        if decl["sortable"] and exc == "ValueError" and i.get("iter_exc"):
+            v = ordering_verdict(lines, i, decl)
+            d = len(i["records"])
+            about = dict(where, exception=exc, stage="iteration", order=decl["order"], contigs=decl["contigs"], at_record=d)
+            if v == "spurious":
+                return [dict(about, what="the ordering error was raised on the line of record %d although it does not contradict the declared order %s%s: "
+                                         "it is not smaller than any record before it" % (d + 1, decl["order"], " with contigs %s" % decl["contigs"] if decl["contigs"] else ""),
+                             kind="spurious-ordering-error")]
+            if v == "malformed":
+                return [dict(about, what="reading failed with ValueError on the line of record %d, which has no readable coordinates (missing column or non-integer position text): "
+                                         "a malformed line contradicts no order%s" % (d + 1, "" if mode == "Strict" else ", and the non-strict modes never fail merely because a line is malformed"),
+                             kind="ordering-error-on-malformed-line")]
+            return []
+        return [dict(where, what="reading failed with %s, which is neither the format exception in Strict mode nor the documented ordering error" % exc,
+                     kind="undocumented-exception", exception=exc, stage="init" if i.get("init_exc") else "iteration")]
     want = body_count(lines)
     if len(i["records"]) != want:
         return [dict(where, what="yielded %d records for %d lines after the column line" % (len(i["records"]), want), kind="count")]
@@ -73,12 +234,14 @@ def eval_read(r, m):
     (None = model not consulted) and judged by the oracle.
     Returns (implementation answer, correspondence, failures); correspondence is None / "agree" / "unmodelled" / "dontcare" / a disagreement dict."""
     lines, mode = r["lines"], r["mode"]
-    i = impl.run(r)
+    i = filecases.reader_open(r) if "via" in r else impl.run(r)
     corr = None
     if m is not None:
         corr = "agree"
         if has_unmodelled(m):
             corr = "unmodelled"
+        elif r.get("consume") == "next" and m.get("iter_exc") == "ValueError":
+            corr = "unmodelled"     # the model reads as a for loop does (order enforced); next(reader) bypasses the order check
         elif m != i:
             from .. import colcases
             dc = any(colcases.dontcare_numeric(p) or colcases.dontcare_uuid(p) for l in lines for f in l.split("\t") for p in [f] + f.split(";"))
@@ -86,10 +249,90 @@ def eval_read(r, m):
                 corr = "dontcare"
             else:
                 keys = [k for k in sorted(set(m) | set(i)) if m.get(k) != i.get(k)]
-                corr = {"op": "reader.run", "lines": lines, "mode": mode, "differs": keys,
+                corr = {"op": "reader.run", "lines": lines, "mode": mode, "how": how_of(r), "differs": keys,
                         "model": {k: m.get(k) for k in keys if k != "records"},
                         "impl": {k: i.get(k) for k in keys if k != "records"}}
-    return i, corr, oracle(lines, mode, i)
+    return i, corr, oracle(lines, mode, i, how_of(r))
+
+
+GIVEN_NAMES = [["c1", "c2", "c3", "c4"], ["a", "b", "c", "d"], c09.UNTYPED, ["x"]]
+
+
+def gen_how(rng, lines, via=None):
+    """A factory, a consumption style and (sometimes) a scheme given by the caller for reading `lines`: keyword arguments of request()."""
+    via = via or rng.choice(filecases.READER_VIAS)
+    kw = {"via": via, "consume": rng.choice(["for", "for", "iter", "next"])}
+    if via in ("path", "gz"):
+        kw["text"] = filecases.text_of(rng, lines)
+    k = rng.random()
+    if k < 0.1:
+        kw["given"] = rng.choice([a for a in ANNS if a])
+    elif k < 0.2:
+        kw["given_norestrict"] = rng.choice(GIVEN_NAMES)
+    return kw
+
+
+def gen_factory_file(rng):
+    """A file of the main family, often with empty lines and with characters that are not line terminators although
+    str.splitlines() (and some editors) break on them, or that text handling tends to special-case."""
+    lines = gen_file(rng)
+    k = rng.random()
+    if k < 0.45:
+        lines = filecases.inject_chars(rng, lines, filecases.LINEBREAKISH)
+    elif k < 0.6:
+        lines = filecases.inject_chars(rng, lines, filecases.ODD_CHARS)
+    if rng.random() < 0.35:
+        lines = filecases.with_empty_lines(rng, lines)
+    return lines
+
+
+BAD_COORD_TEXTS = ["abc", "", "1.5", "x y", "é", "-", "1e3", "0x10", "None"]
+CONTIG_LISTS = [None, ["1", "2", "10", "X"], ["chr1", "chr2", "chr10"], ["10", "2", "X", "1"], ["chr10", "chr2", "chr1"]]
+EXTRA_PRAGMAS = ["#center broad.mit.edu", "#n.samples 4", "#note sorted by the pipeline"]
+
+
+def gen_ordered_file(rng, corrupt=0.0):
+    """A file that declares a sortable order (with or without a contig list, either pragma first) over a typed (gdc-1.0.0)
+    or scheme-less body whose records follow the documented order, left alone / with two records swapped / shuffled / with a
+    chromosome outside the list, with malformed lines in between (no coordinates) and - with probability `corrupt` - with one
+    coordinate text made unreadable."""
+    typed = rng.random() < 0.5
+    order = rng.choice(SORTABLE)
+    contigs = rng.choice(CONTIG_LISTS)
+    chroms = contigs or rng.choice([["1", "2", "10", "X"], ["chr1", "chr2", "chr10"]])
+    recs = c09.gen_recs(rng, rng.randrange(1, 8), chroms)
+    for x in recs:
+        x["_typed"] = typed
+    recs = c09.sort_recs(recs, order, contigs or [])
+    k = rng.random()
+    if k < 0.3 and len(recs) >= 2:
+        a = rng.randrange(len(recs) - 1)
+        b = rng.randrange(a + 1, len(recs))
+        recs[a], recs[b] = recs[b], recs[a]
+    elif k < 0.4:
+        rng.shuffle(recs)
+    elif k < 0.5 and contigs and recs:
+        rng.choice(recs)["chr"] = rng.choice(["3", "chrY", "MT"])
+    header = ["#version gdc-1.0.0"] + ([] if typed else ["#annotation.spec my-spec"])
+    decl = ["#sort.order " + order] + (["#contigs " + ",".join(contigs)] if contigs else [])
+    rng.shuffle(decl)
+    header += decl
+    if rng.random() < 0.3:
+        header.insert(rng.randrange(1, len(header) + 1), rng.choice(EXTRA_PRAGMAS))
+    col = "\t".join(impl.scheme_by_annotation("gdc-1.0.0").column_names()) if typed else "\t".join(c09.UNTYPED)
+    body = c09.to_lines(recs, typed, rng)
+    if body and rng.random() < corrupt:
+        # one coordinate / barcode text made unreadable (a malformed line: under a typed scheme the column is invalid,
+        # in a scheme-less file the text is simply not a number)
+        names = col.split("\t")
+        k = rng.randrange(len(body))
+        fields = body[k].split("\t")
+        fields[names.index(rng.choice(["Start_Position", "Start_Position", "End_Position", "Chromosome", "Tumor_Sample_Barcode"]))] = rng.choice(BAD_COORD_TEXTS)
+        body[k] = "\t".join(fields)
+    if rng.random() < 0.35:
+        for _ in range(rng.randrange(1, 3)):
+            body.insert(rng.randrange(len(body) + 1), rng.choice(filecases.ODD_LINES))
+    return header + [col] + body
 
 
 def run(ctx):
@@ -97,17 +340,43 @@ def run(ctx):
     out.rule = ("random files over an adversarial alphabet (pragmas in any position, blank lines, wrong counts, invalid fields, control / non-ASCII characters, "
                 "pseudo-scheme and unknown annotations) x 3 modes x declared order present/absent x built-in / unrecognised layouts; "
                 "non-trivial = file with a body or a malformed header; distinct files")
+    out.rule += ("; every reader factory (MafReader(lines=<list>), (lines=<iterator>), reader_from(<plain file>), reader_from(<.gz file>)) x "
+                 "consumption style (for / iter()+next() / next(reader)) x scheme given by the caller or not, over files with LF / CRLF / CR / mixed terminators, empty lines and "
+                 "characters str.splitlines() breaks on; files declaring a sortable order (contig list absent / listed in non-lexical order) over bodies that follow it, descend "
+                 "once or name an unlisted chromosome: an ordering error is accepted only on a line that contradicts the declaration")
     rng = ctx.rng("files")
     reqs = []
     for _ in range(ctx.scale(500, 6000)):
         lines = gen_file(rng)
         for mode in MODES:
             reqs.append(request(lines, mode))
+    # every factory / consumption style / caller-given scheme (own stream: the cases above are unchanged)
+    rng = ctx.rng("factories")
+    for _ in range(ctx.scale(120, 1500)):
+        lines = gen_factory_file(rng)
+        for via in ("iter", "path", "gz"):
+            kw = gen_how(rng, lines, via)
+            if "text" in kw and not filecases.encodable(kw["text"]):
+                continue
+            reqs.append(request(lines, rng.choice(MODES), **kw))
+    # declared order over bodies that follow / contradict it
+    for salt, n, corrupt in (("ordered", ctx.scale(160, 2000), 0.0), ("ordered-unreadable", ctx.scale(80, 1000), 0.8)):
+        rng = ctx.rng(salt)
+        for _ in range(n):
+            lines = gen_ordered_file(rng, corrupt)
+            kw = gen_how(rng, lines)
+            kw.pop("given", None)
+            kw.pop("given_norestrict", None)
+            reqs.append(request(lines, rng.choice(MODES), **kw))
     mo = ctx.driver.run(reqs)
     for r, m in zip(reqs, mo):
         out.evaluations += 1
         lines, mode = r["lines"], r["mode"]
         i, corr, failures = eval_read(r, m)
+        for tag in ("via:" + r.get("via", "list"), "style:" + r.get("consume", "for")) + (("scheme-given",) if "given" in r or "given_norestrict" in r else ()):
+            out.distribution[tag] += 1
+        if i.get("iter_exc") == "ValueError":
+            out.distribution["ordering-error:%s" % ordering_verdict(lines, i)] += 1
         if corr == "unmodelled":
             out.unmodelled += 1
         elif corr == "dontcare":
@@ -121,7 +390,7 @@ def run(ctx):
             out.distribution["completed"] += 1
         out.failures += failures
         if body_count(lines) or any(l.startswith("#") for l in lines):
-            out.nontrivial.add(repr(lines))
+            out.nontrivial.add(repr((lines, sorted(how_of(r).items()))) if "via" in r else repr(lines))
         if len(out.samples) < 4 and body_count(lines) > 1:
             out.sample({"lines": [l[:80] for l in lines[:6]], "mode": mode, "outcome": exc or "completed"})
     return out
@@ -139,13 +408,23 @@ def _brief(a):
         (" %s" % a["errors"][:4]) if a.get("errors") else "")
 
 
+KINDS = ("undocumented-exception", "count", "spurious-ordering-error", "ordering-error-on-malformed-line")
+
+
+INPUT_KEYS = ("lines", "mode", "via", "consume", "text", "given", "given_norestrict")
+
+
 def replay_case(ctx, failure):
     """Re-evaluate the stored failing input on the current implementation; return the list of failure dicts it
     produces now (empty list = the property holds on that input)."""
     lines, mode = failure.get("lines"), failure.get("mode")
-    if failure.get("kind") not in ("undocumented-exception", "count") or not isinstance(lines, list) or mode not in MODES:
+    if failure.get("kind") not in KINDS or not isinstance(lines, list) or mode not in MODES:
         return None
-    r = request(lines, mode)
+    how = how_of(failure)
+    if how.get("via") in ("path", "gz") and not isinstance(how.get("text"), str):
+        return None
+    r = request(lines, mode, **how)
+    lines = r["lines"]
     m = None
     if ctx.driver.available():
         try:
@@ -153,11 +432,30 @@ def replay_case(ctx, failure):
         except Exception as e:  # noqa
             print("model: driver failed (%s)" % str(e)[:200])
     i, corr, failures = eval_read(r, m)
-    print("executed: MafReader(lines=<%d lines>, validation_stringency=%s), then iterated to the end" % (len(lines), mode))
+    via, style = how.get("via", "list"), how.get("consume", "for")
+    opened = {"list": "MafReader(lines=<list of %d lines>" % len(lines), "iter": "MafReader(lines=<iterator over %d lines>" % len(lines),
+              "path": "MafReader.reader_from(<plain file of %d characters, %d physical lines>" % (len(how.get("text", "")), len(lines)),
+              "gz": "MafReader.reader_from(<.gz file of %d characters, %d physical lines>" % (len(how.get("text", "")), len(lines))}[via]
+    given = ", scheme=<%s>" % how["given"] if "given" in how else ", scheme=NoRestrictionsScheme(%s)" % how["given_norestrict"] if "given_norestrict" in how else ""
+    print("executed: %s, validation_stringency=%s%s), then consumed to the end with %s" % (
+        opened, mode, given, {"for": "a for loop", "iter": "iter(reader) and next() on it", "next": "next(reader)"}[style]))
+    if "text" in how:
+        print("  file text: %r" % how["text"][:300])
     for n, l in enumerate(lines[:12], start=1):
         print("  line %d: %r" % (n, l[:100]))
-    print("  %d line(s) after the column line; sortable order declared: %s" % (body_count(lines), declared_sortable(lines)))
+    decl = declared(lines)
+    print("  %d line(s) after the column line; sortable order declared: %s%s" % (body_count(lines), decl["sortable"],
+          " (%s, contigs %s)" % (decl["order"], decl["contigs"] or "not listed") if decl["order"] else ""))
     print("implementation: %s" % _brief(i))
+    if i.get("iter_exc") == "ValueError" and decl["sortable"]:
+        v = ordering_verdict(lines, i, decl)
+        locs = body_locs(lines, i) or []
+        for j, x in enumerate(locs[:len(i["records"]) + 1]):
+            print("  record %d: %s" % (j + 1, "unreadable" if not x else "tumor=%r normal=%r chr=%r start=%r end=%r" % (x["tumor"], x["normal"], x["chr"], x["start"], x["stop"]) + (" (no column: %s)" % ", ".join(x["missing"]) if x["missing"] else "")))
+        print("  the ordering error was raised on the line of record %d: %s" % (len(i["records"]) + 1, {
+            "contig": "its chromosome is not in the declared contig list", "descent": "it is smaller than a record before it", "spurious": "it does NOT contradict the declaration",
+            "malformed": "it has no readable coordinates, so it contradicts nothing",
+            None: "not judged (declaration not clear-cut or coordinates not well-formed)"}[v]))
     if m is not None:
         print("model:          %s" % (_brief(m) if corr != "unmodelled" else "input outside the model's domain"))
         print("model vs implementation: %s" % (corr if isinstance(corr, str) else "differ in %s" % corr["differs"]))
@@ -165,29 +463,40 @@ def replay_case(ctx, failure):
         print("oracle: %s" % g["what"])
     if not failures:
         print("oracle: satisfied (%s)" % ("documented failure" if (i.get("init_exc") or i.get("iter_exc")) else "one record per line after the column line"))
+        print("the stored input alone satisfies the property; the failure may depend on what the process did before it (state kept between calls):")
+        failures = filecases.rerun_in_fresh_process("C16", failure, INPUT_KEYS)
+        for g in failures[:1]:
+            print("oracle (in the re-run): %s" % g["what"])
     return failures
 
 
 def shrink(ctx, f):
-    lines = list(f["lines"])
+    """Drops lines (for a file on disk: physical lines together with their terminators) while the same kind of failure remains."""
+    import re
     mode = f["mode"]
+    how = how_of(f)
+    on_disk = how.get("via") in ("path", "gz")
+    # the pieces of the input: lines, or physical lines with their terminators
+    pieces = [p for p in re.findall(r"[^\r\n]*(?:\r\n|\r|\n|$)", how["text"]) if p] if on_disk else list(f["lines"])
 
-    def fails(ls):
-        i = impl.run({"op": "reader.run", "lines": ls, "mode": mode})
-        exc = i.get("init_exc") or i.get("iter_exc")
-        if f["kind"] == "count":
-            return not exc and len(i["records"]) != body_count(ls)
-        return exc == f.get("exception")
+    def req(ps):
+        return request(None, mode, **dict(how, text="".join(ps))) if on_disk else request(ps, mode, **how)
+
+    def failing(ps):
+        return [g for g in eval_read(req(ps), None)[2] if g["kind"] == f["kind"] and g.get("exception") == f.get("exception")]
+    n0 = len(pieces)
     changed = True
     while changed:
         changed = False
-        for k in range(len(lines)):
-            ls = lines[:k] + lines[k + 1:]
-            if fails(ls):
-                lines = ls
+        for k in range(len(pieces)):
+            ps = pieces[:k] + pieces[k + 1:]
+            if failing(ps):
+                pieces = ps
                 changed = True
                 break
-    return dict(f, lines=lines, shrunk_from=len(f["lines"]))
+    if len(pieces) == n0:
+        return f
+    return dict(failing(pieces)[0], shrunk_from=n0)
 
 
 def search(ctx):
